@@ -13,12 +13,16 @@ theorem addFunctions_nil (base : String) (acc : InjAcc) : addFunctions base acc 
 
 theorem addFunctions_cons (base : String) (acc : InjAcc) (f : SFunc) (fs : List SFunc) :
     addFunctions base acc (f :: fs)
-      = if f.vis == .pub then addFunctions base (injStep base acc f) fs else addFunctions base acc fs := by
+      = if reexposable f then addFunctions base (injStep base acc f) fs else addFunctions base acc fs := by
   unfold addFunctions
   rw [List.filter_cons]
-  by_cases c : (f.vis == G.Vis.pub) = true
-  · simp only [SFunc.isPublic, c, if_true, List.foldl_cons]; rfl
-  · simp only [SFunc.isPublic, c]; rfl
+  by_cases c : reexposable f = true
+  · have c' : (f.isPublic && !f.isInternal) = true := c
+    simp only [c, c', if_true, List.foldl_cons]; rfl
+  · have c' : (f.isPublic && !f.isInternal) = false := by
+      have : reexposable f = false := by simpa using c
+      exact this
+    simp only [c, c']; rfl
 
 theorem addFunctions_spec_lem (base : String) (acc : InjAcc) (fs : List SFunc) :
     (addFunctions base acc fs).fns = acc.fns ++ specInject base acc.used fs
@@ -28,7 +32,7 @@ theorem addFunctions_spec_lem (base : String) (acc : InjAcc) (fs : List SFunc) :
   | cons f fs ih =>
     rw [addFunctions_cons]
     unfold specInject usedAfter
-    by_cases c : (f.vis == G.Vis.pub) = true
+    by_cases c : reexposable f = true
     · simp only [c, if_true]
       obtain ⟨h1, h2⟩ := ih (injStep base acc f)
       rw [h1, h2]
@@ -37,7 +41,7 @@ theorem addFunctions_spec_lem (base : String) (acc : InjAcc) (fs : List SFunc) :
       exact ih acc
 
 theorem every_public_reexposed_lem (base : String) (used : List String) (fs : List SFunc) (f : SFunc)
-    (hf : f ∈ fs) (hp : f.vis = .pub) :
+    (hf : f ∈ fs) (hp : f.vis = .pub) (hi : f.isInternal = false) :
     ∃ g ∈ specInject base used fs, g.body = .field base f.name ∧ (g.name = f.name ∨ g.name = renamed base f.name)
       ∧ g.args = f.args ∧ g.ret = f.ret ∧ g.cc = f.cc ∧ g.vis = .pub := by
   induction fs generalizing used with
@@ -45,7 +49,7 @@ theorem every_public_reexposed_lem (base : String) (used : List String) (fs : Li
   | cons f0 fs ih =>
     unfold specInject
     rcases List.mem_cons.mp hf with rfl | hf'
-    · have c : (f.vis == G.Vis.pub) = true := by rw [hp]; rfl
+    · have c : reexposable f = true := by simp [reexposable, hp, hi]
       simp only [c, if_true]
       refine ⟨_, List.mem_cons_self, rfl, ?_, rfl, rfl, rfl, hp⟩
       by_cases c2 : used.contains f.name = true
@@ -53,7 +57,7 @@ theorem every_public_reexposed_lem (base : String) (used : List String) (fs : Li
       · left
         have c3 : used.contains f.name = false := by simpa using c2
         simp only [c3]; rfl
-    · by_cases c : (f0.vis == G.Vis.pub) = true
+    · by_cases c : reexposable f0 = true
       · simp only [c, if_true]
         obtain ⟨g, hg, hh⟩ := ih _ hf'
         exact ⟨g, List.mem_cons_of_mem _ hg, hh⟩
@@ -61,16 +65,17 @@ theorem every_public_reexposed_lem (base : String) (used : List String) (fs : Li
         exact ih _ hf'
 
 theorem private_not_reexposed_lem (base : String) (used : List String) (fs : List SFunc) :
-    ∀ g ∈ specInject base used fs, ∃ f ∈ fs, f.vis = .pub ∧ g.body = .field base f.name := by
+    ∀ g ∈ specInject base used fs, ∃ f ∈ fs, f.vis = .pub ∧ f.isInternal = false ∧ g.body = .field base f.name := by
   induction fs generalizing used with
   | nil => intro g hg; simp [specInject] at hg
   | cons f0 fs ih =>
     intro g hg
     unfold specInject at hg
-    by_cases c : (f0.vis == G.Vis.pub) = true
+    by_cases c : reexposable f0 = true
     · simp only [c, if_true] at hg
+      have c2 : f0.vis = .pub ∧ f0.isInternal = false := by simpa [reexposable] using c
       rcases List.mem_cons.mp hg with rfl | hg'
-      · exact ⟨f0, List.mem_cons_self, by simpa using c, rfl⟩
+      · exact ⟨f0, List.mem_cons_self, c2.1, c2.2, rfl⟩
       · obtain ⟨f, hf, hh⟩ := ih _ g hg'
         exact ⟨f, List.mem_cons_of_mem _ hf, hh⟩
     · simp only [c] at hg
